@@ -1,7 +1,11 @@
 """Property → rules registry (see DESIGN.md §4).  Single source for MANIFEST.json."""
 
 # "fix:" commits made in /repo for genuine defects the checks found (see known_findings.json)
-FIX_COMMITS = []
+FIX_COMMITS = [
+    "02a02b1", "c32131a", "324bd77", "876de36", "e2492f3", "e522aa8", "02b45be", "2a6ea78", "7fbeea5", "b9a009d",
+    "caa585b", "a0bae72", "49c1276", "a9a220e", "3b6199f", "d3ca28d", "e11250e", "3ac0c81", "b80de6a", "773425f",
+    "a468da5", "3e9bf5d", "abf25e6", "2859361", "650ac10",
+]
 
 NOT_APPLICABLE = {
     "C16": "observational equivalence of original and instrumented programs under execution (results, traps, memory/global state, event timing) for every generated program and argument vector: no clause is a fact about the shape of wirm's code beyond what C15/C17-C22 already claim; deciding it needs an interpreter or a semantics-level proof of the lowering, i.e. a different technique family",
@@ -133,9 +137,9 @@ PROPS = {
              "R-BLOCK-TABLES(1,2), R-RESOLVER-DETAILS, R-SCOPED-PENDING, R-RESOLVE-CLEARS.",
              "firing semantics.",
              "table agreement + container scoping analysis"),
-    "C20": P([BLOCKT, DETAILS, ("misc", "scoped_pending", {}), ("misc", "dead_after_sink", {}), CLEARS],
+    "C20": P([BLOCKT, DETAILS, ("misc", "flag_reset", {}), ("misc", "dead_after_sink", {}), CLEARS],
              "necessary: branch tables agree, target id arithmetic, flag protocol (set/reset), flag reset inside guard, no After code on the final end",
-             "R-BLOCK-TABLES(1,3), R-RESOLVER-DETAILS, R-SCOPED-PENDING(flag reset), R-DEAD-AFTER-SINK, R-RESOLVE-CLEARS.",
+             "R-BLOCK-TABLES(1,3), R-RESOLVER-DETAILS, R-FLAG-RESET, R-DEAD-AFTER-SINK, R-RESOLVE-CLEARS.",
              "exactly-once at run time.",
              "table agreement + path enumeration"),
     "C21": P([BLOCKT, DETAILS, CLEARS],
@@ -178,7 +182,7 @@ PROPS = {
              "R-CUSTOM-SECTIONS.",
              "byte equality of the emitted sections over edit sequences.",
              "who-may-write + field pairing"),
-    "C29": P([EM(("func", "global", "memory"), names=True), ("misc", "name_dispatch", {}), ("fields", "name_pairing", {})],
+    "C29": P([EM((), names=True), ("misc", "name_dispatch", {}), ("fields", "name_pairing", {})],
              "necessary: index-keyed name maps must not be emitted with pre-edit indices; naming dispatches on kind; each name kind re-emitted from where it was stored",
              "R-EMIT-MAPPED(names), R-NAME-DISPATCH, R-NAME-PAIRING.",
              "name equality over histories.",
